@@ -13,7 +13,7 @@ from __future__ import annotations
 
 from typing import Any, Optional
 
-from mc.common import Ctx, InternalError, pmap
+from mc.common import Ctx, InternalError, pmap, tag, pmap_tagged
 from mc.explore import Chooser, Horizon, dfs
 from mc.fd import build, has_helper_symbols, reset_constraint_caches, snap
 from mc.refconstraint import And, Atom, Child, Desc, Or, Quant, Sym, from_snapshot, holds, merge_whole, text
@@ -287,7 +287,7 @@ def loop_explore(ctx: Ctx, names: list, which: set, bound: int, cap: int) -> dic
     agg = {"executions": 0, "horizon": 0, "errors": {}, "emitted": 0, "population": 0, "capped": 0, "distinct_outcomes": set(), "choice_points_default": {}}
     frontier = [(n, [], which, pol) for n in names for pol in ("zero", "rot")]
     for level in range(bound + 1):
-        results = pmap(loop_run, frontier, chunk=2)
+        results = pmap_tagged(loop_run, frontier, chunk=2)
         nxt = []
         for task, r in zip(frontier, results):
             agg["executions"] += 1
@@ -302,7 +302,7 @@ def loop_explore(ctx: Ctx, names: list, which: set, bound: int, cap: int) -> dic
                 agg["choice_points_default"][r["name"] + "/" + r["policy"]] = len(r["points"])
             for pid, case in r["viol"]:
                 if pid == ctx.pid:
-                    ctx.violation(case)
+                    ctx.violation(tag(case, "mc.evo", "loop_run", task))
             if level < bound:
                 pre = task[1]
                 for i in range(len(pre), len(r["points"])):
@@ -460,8 +460,11 @@ def closure_explore(ctx: Ctx, names: list, which: set, depth: int, frontier_cap:
                 tasks.append((name, b, "repair", None, which, run_cap))
                 for p in partners:
                     tasks.append((name, b, "crossover", p, which, run_cap))
-            results = pmap(closure_work, tasks, chunk=2)
+            results = pmap_tagged(closure_work, tasks, chunk=2)
             nxt = []
+            for task_, r in zip(tasks, results):
+                for _, case in r["viol"]:
+                    tag(case, "mc.evo", "closure_work", task_)
             for r in results:
                 agg["transitions"] += len(r["new"])
                 agg["executions"] += r["runs"]
